@@ -208,6 +208,25 @@ func (mdb *memdb) addAnnotation(bodyid uint64, annotation NeuronJSON) {
 	}
 }
 
+// replace (or add) an annotation in an in-memory DB that is in use, in batch mode
+// assuming ids are sorted later: the body id is listed once and the field counts
+// follow the annotation that is replaced.
+func (mdb *memdb) replaceAnnotation(bodyid uint64, annotation NeuronJSON) {
+	mdb.mu.Lock()
+	defer mdb.mu.Unlock()
+	if old, found := mdb.data[bodyid]; found {
+		for field := range old {
+			mdb.decrementField(field)
+		}
+	} else {
+		mdb.ids = append(mdb.ids, bodyid)
+	}
+	mdb.data[bodyid] = annotation
+	for field := range annotation {
+		mdb.fields[field]++
+	}
+}
+
 // kvType is an interface for keyvalue instances we wish to migrate to neuronjson.
 type kvType interface {
 	DataName() dvid.InstanceName
@@ -290,14 +309,16 @@ func (d *Data) loadFromKV(v dvid.VersionID, kvData kvType) {
 			dvid.Errorf("Unable to decode annotation for bodyid %d, skipping: %v\n", bodyid, err)
 			continue
 		}
-		mdb.addAnnotation(bodyid, annotation)
+		mdb.replaceAnnotation(bodyid, annotation)
 
 		numLoaded++
 		if numLoaded%1000 == 0 {
 			tlog.Infof("Loaded %d annotations into neuronjson instance %q", numLoaded, d.DataName())
 		}
 	}
+	mdb.mu.Lock()
 	sort.Slice(mdb.ids, func(i, j int) bool { return mdb.ids[i] < mdb.ids[j] })
+	mdb.mu.Unlock()
 	errored := numFromKV - numLoaded
 	tlog.Infof("Completed loading of %d annotations into neuronjson instance %q (%d skipped)",
 		numLoaded, d.DataName(), errored)
